@@ -35,7 +35,7 @@ ASSUMPTIONS = [
 
 TOP = scen.TOP
 H = ['SHA1']
-BASES = ['tags_rich', 'flat_rich', 'nested_gz_None', 'nested_None_xz', 'dup_parent_child', 'two_in_dir']
+BASES = ['tags_rich', 'flat_rich', 'nested_gz_None', 'nested_None_xz', 'dup_parent_child', 'two_in_dir', 'twin_names']
 
 # operations: (name, needs_loader, kind)   kind: env | read | update | save | cli_read | cli_write
 OPS = [
@@ -47,6 +47,7 @@ OPS = [
     ('save', True, 'save'), ('save_force', True, 'save'), ('save_sort', True, 'save'), ('save_wm0', True, 'save'),
     ('save_wmhuge', True, 'save'),
     ('cli_verify', False, 'cli_read'), ('cli_update', False, 'cli_write'), ('cli_update_sub', False, 'cli_write'),
+    ('cli_create', False, 'cli_write'),
     ('edit_alter', False, 'env'), ('edit_add', False, 'env'), ('edit_delete', False, 'env'),
     ('edit_delete_f1', False, 'env'),
     ('env_dir_for_file', False, 'env'), ('env_loop', False, 'env'),
@@ -136,6 +137,11 @@ def do_op(w, op):
         return gem.brief(gem.call(lambda: m.save_manifests(compress_watermark=10 ** 6)))
     if op == 'cli_verify':
         return 'exit:%r' % gem.cli(['verify', root]).get('exit')
+    if op == 'cli_create':
+        # `gemato create` on a tree that already has Manifests: like update, but it was never asked for a TIMESTAMP
+        w.loader = None
+        w.scopes = []
+        return 'exit:%r' % gem.cli(['create', '-H', 'SHA1', root]).get('exit')
     if op in ('cli_update', 'cli_update_sub'):
         # another process rewrote the Manifests: a loader created earlier is stale
         # from here on (single-actor property), so it is discarded
@@ -238,7 +244,7 @@ def check_transition(op, before, after, events, scopes, obs):
                 bad.append((f'{tag}_not_preserved', f'{op}: {lp!r}: {dict(cb)} -> {dict(ca)}'))
         tb = [e for e in eb if e[0] == 'TIMESTAMP']
         ta = [e for e in ea if e[0] == 'TIMESTAMP']
-        if kind == 'cli_write' and op != 'cli_update_sub':
+        if kind == 'cli_write' and op == 'cli_update':
             # whole-tree CLI update may refresh the value of an existing TIMESTAMP (cli.py does so by design)
             if len(tb) != len(ta):
                 bad.append(('TIMESTAMP_not_preserved', f'{op}: {lp!r}: {tb} -> {ta}'))
@@ -256,7 +262,7 @@ def check_transition(op, before, after, events, scopes, obs):
         return ix
     ib, ia = index(pb), index(pa)
     eff_scopes = list(scopes)
-    if op == 'cli_update':
+    if op in ('cli_update', 'cli_create'):
         eff_scopes = ['']
     elif op == 'cli_update_sub':
         eff_scopes = ['d']
